@@ -1250,6 +1250,16 @@ where
         if let Some(entry) = self.cache.get(key) {
             if entry.is_dirty() {
                 // The key exists and the entry has been updated.
+                #[cfg(mini_moka_verif)]
+                {
+                    // is the front node the node of this entry, or a leftover of an earlier one?
+                    let same = deq.peek_front().map_or(false, |n| {
+                        std::ptr::eq(n.element.entry_info(), &**entry.entry_info())
+                    });
+                    if !same {
+                        self.verif_emit("skip.stale", Some(key), 0, 0, 0);
+                    }
+                }
                 Deques::move_to_back_ao_in_deque(deq_name, deq, &entry);
                 Deques::move_to_back_wo_in_deque(write_order_deq, &entry);
                 true
